@@ -20,8 +20,9 @@ def build(rng, i):
             sp.files[q] = q + "\n"
         src = sp.src("tsrc", tpaths)      # the tagger is the only consumer of this out-port
         tg = sp.raw("COMP maptags %s %s %d %s" % (hx("tagger"), hx("grp"), src, hx("out")))
-        a = sp.proc(t3.Proc("t1", kind="cattok", ins=[("a", [(tg, "out")])], outs=[("o", "{i:a}.t1.{t:a.grp}")]))
-        b = sp.proc(t3.Proc("t2", kind="cat", ins=[("a", [(a, "o")])], outs=[("o", None)]))
+        pn = rng.choice(["a", "reads.fa", "x.y.z"])          # in-port names may contain dots
+        a = sp.proc(t3.Proc("t1", kind="cattok", ins=[(pn, [(tg, "out")])], outs=[("o", "{i:%s}.t1.{t:%s.grp}" % (pn, pn))]))
+        b = sp.proc(t3.Proc("t2", kind="cat", ins=[(rng.choice(["a", "in.put"]), [(a, "o")])], outs=[("o", None)]))
         sp.proc(t3.Proc("t3", kind="cat", ins=[("a", [(b, "o")])], outs=[("o", "{i:a}.t3")]))
     elif shape == 2 and procs:
         # sub-stream: every member is an upstream record of the joined task
